@@ -356,6 +356,7 @@ func (w *worker) run(i int, name string) {
 		}
 	}
 	midLog := world.LogLen()
+	midRV := world.RV()
 	for k := 0; k < 2; k++ {
 		_, _, _ = ce.Reconcile("ns1", "c1")
 	}
@@ -472,6 +473,58 @@ func (w *worker) run(i int, name string) {
 		if e.Changed && (e.Actor == "xr" || e.Actor == "claim") {
 			fail("secret-changed-in-steady-state", "second round changed a secret although nothing changed: "+e.Short())
 		}
+	}
+	// ... also when the claim controller's Secret cache still shows the claim secret as it was
+	// BEFORE the controller itself brought it up to date: the stale copy differs, the write it
+	// provokes is refused by the API server (409), and that is the end of it - the stored secret
+	// already holds exactly the XR's data
+	if clIdentical {
+		lc := world.LaggingClient("claim", func(gk schema.GroupKind) (int64, bool) { return -midRV, gk.Group == "" && gk.Kind == "Secret" })
+		stale := xrk.NewClaimEnvWithClient(world, "xthings.ex.org", i%4 >= 2, lc)
+		from3 := world.LogLen()
+		_, _, _ = stale.Reconcile("ns1", "c1")
+		for _, e := range world.Log(from3) {
+			if e.Actor != "claim" || e.Key.Kind != "Secret" || !e.IsWrite() || e.DryRun {
+				continue
+			}
+			if e.Reason == "Conflict" {
+				c.Count("stale_secret_cache_conflicts", 1)
+			}
+			if e.Err == "" {
+				fail("identical-secret-rewritten:stale-secret-cache", "a claim reconcile reading its secret from a stale cache got a write through although the stored secret already equals the XR's: "+e.Short())
+			}
+		}
+		c.Count("stale_secret_cache_reconciles", 1)
+	}
+	// the composition's details rotate and the XR republishes - within the same wall-clock second
+	// as the claim's last copy, as it happens when the harness (or a fast controller) runs: the
+	// claim's secret follows
+	if clIdentical && t.Mode == "pipeline" && t.ClaimWant {
+		t2 := t
+		t2.Details = map[string]string{}
+		for k, v := range t.Details {
+			t2.Details[k] = v + "-rotated"
+		}
+		w.mu.Lock()
+		w.cur = &t2
+		w.mu.Unlock()
+		xrBefore := secretData(world.GetObj(xrSecretKey))
+		for k := 0; k < 2; k++ {
+			_, _, _ = xe.Reconcile("static-xr")
+		}
+		for k := 0; k < 2; k++ {
+			_, _, _ = ce.Reconcile("ns1", "c1")
+		}
+		xrNow, clNow := secretData(world.GetObj(xrSecretKey)), secretData(world.GetObj(clSecretKey))
+		if !reflect.DeepEqual(xrBefore, xrNow) {
+			c.Count("republished_xr_secrets", 1)
+			if !reflect.DeepEqual(xrNow, clNow) {
+				fail("claim-secret-stale-after-republish", fmt.Sprintf("the XR republished %v, two claim reconciles later the claim secret still holds %v", xrNow, clNow))
+			}
+		}
+		w.mu.Lock()
+		w.cur = &t
+		w.mu.Unlock()
 	}
 	if xrIdentical {
 		c.Count("steady_state_identical_xr_secret", 1)
